@@ -51,6 +51,22 @@ async def parse_resolver(s):
         return "exception:" + type(e).__name__, None
 
 
+async def resolve_with_packages(s):
+    """the resolver with package resolution switched on: a tree, SyntaxError, or NotImplementedError for a package the resolver does not know (C10)"""
+    import ahb
+    from ahbicht.expressions.expression_resolver import parse_expression_including_unresolved_subexpressions
+    ahb.set_cer_values(packages={"1P": "[1]", "2P": "[2] U [3]", "25P": "[4]"})
+    try:
+        await parse_expression_including_unresolved_subexpressions(s, resolve_packages=True, replace_time_conditions=True)
+        return "accept"
+    except SyntaxError:
+        return "reject"
+    except NotImplementedError:
+        return "unknown-package"
+    except BaseException as e:  # pylint:disable=broad-except
+        return "exception:" + type(e).__name__
+
+
 def parse_ahb_only(s):
     from ahbicht.expressions.ahb_expression_parser import parse_ahb_expression_to_single_requirement_indicator_expressions
     try:
@@ -125,6 +141,12 @@ async def lexer_state(st, idx, sd, acc, n_dead):
         acc.c("parses")
         if v != exp:
             acc.v(f"resolver on {s!r}: {v}, the documented language says {exp}", dict(case, entry="resolver"))
+        if exp == "accept":
+            w = await resolve_with_packages(s)
+            acc.c("parses")
+            if w.startswith("exception"):
+                acc.v(f"resolver with resolve_packages=True on {s!r}: {w}; only SyntaxError (or NotImplementedError for an unknown package) may escape",
+                      dict(case, entry="resolver+packages"))
         if exp == "reject" and idx % 4 == 0:
             k, r = await validity(s)
             acc.c("validity_checks")
@@ -174,6 +196,11 @@ async def ahb_state(st, idx, sd, acc):
                 if st["obs"]["parts"] != () or proj[1] != st["obs"]["cond"]:
                     acc.v(f"resolver reads {s!r} as the condition expression {proj[1]}, the documented reading is "
                           f"{st['obs']['parts'] or st['obs']['cond']}", dict(case, entry="resolver"))
+        w = await resolve_with_packages(s)
+        acc.c("parses")
+        if w.startswith("exception"):
+            acc.v(f"resolver with resolve_packages=True on {s!r}: {w}; only SyntaxError (or NotImplementedError for an unknown package) may escape",
+                  dict(case, entry="resolver+packages"))
         a, atree = parse_ahb_only(s)
         acc.c("parses")
         if a.startswith("exception"):
@@ -303,6 +330,9 @@ def garbage(res, n):
             for name, verdict in (("condition parser", v), ("AHB parser", a), ("resolver", r)):
                 if verdict.startswith("exception"):
                     res.violation(f"{name} on {s!r}: {verdict}; only SyntaxError may escape", {"string": s, "entry": name})
+            w = await resolve_with_packages(s)
+            if w.startswith("exception"):
+                res.violation(f"resolver with resolve_packages=True on {s!r}: {w}; only SyntaxError (or NotImplementedError) may escape", {"string": s, "entry": "resolver+packages"})
             if r == "reject":
                 k, rr = await validity(s)
                 if k != "returned" or rr[0] is not False or not rr[1]:
@@ -375,6 +405,10 @@ def replay(case):
         return 0 if r == exp else 1
     if e == "validity":
         return 0 if (k == "returned" and rr[0] is False and rr[1]) else 1
+    if e == "resolver+packages":
+        w = asyncio.run(resolve_with_packages(s))
+        print(" resolver with packages:", w)
+        return 1 if w.startswith("exception") else 0
     return 1 if any(x.startswith("exception") for x in (v, r, a)) else 0
 
 
